@@ -157,13 +157,6 @@ Structs(wide) == [inBase : BOOLEAN, prel : {"none", "plain", "dis"}, reset : BOO
 Pres(f, st) == {p \in SUBSET LevelNames : OkPresence(f, p, st.inBase, st.prel)}
 FieldPairs == {fg \in Fields \X Fields : Before(fg[1], fg[2])}
 
-Params2(pairs, wide) ==
-    IF pairs
-    THEN UNION {{[f |-> fg[1], g |-> fg[2], pf |-> pf, pg |-> pg] @@ st : pf \in Pres(fg[1], st), pg \in Pres(fg[2], st)} :
-                    fg \in FieldPairs, st \in Structs(wide)}
-    ELSE UNION {{[f |-> f, g |-> "none", pf |-> pf, pg |-> {}] @@ st : pf \in Pres(f, st)} :
-                    f \in Fields, st \in Structs(wide)}
-
 Who(w, nobody) ==
     IF w.kind = "pubkey"
     THEN [kind |-> "pubkey", key |-> IF w.m = {} THEN nobody ELSE CHOOSE x \in w.m : TRUE]
@@ -212,7 +205,19 @@ Build1(s) ==
                        ELSE <<>>)]
 
 Fallback == [fr |-> "F", gl |-> "F"]
-Lattice(pairs, wide) == {Build2(s) : s \in Params2(pairs, wide)} \cup {Build1(s) : s \in Params1}
+
+\* Act(c) for some document c of the lattice.  (Written with nested quantifiers rather than as a set
+\* of documents so that TLC enumerates the lattice without first building and normalising that set.)
+ForLattice(pairs, wide, Act(_)) ==
+    \/ \E s \in Params1 : Act(Build1(s))
+    \/ /\ pairs
+       /\ \E fg \in FieldPairs, st \in Structs(wide) :
+             \E pf \in Pres(fg[1], st), pg \in Pres(fg[2], st) :
+                Act(Build2([f |-> fg[1], g |-> fg[2], pf |-> pf, pg |-> pg] @@ st))
+    \/ /\ ~pairs
+       /\ \E f \in Fields, st \in Structs(wide) :
+             \E pf \in Pres(f, st) :
+                Act(Build2([f |-> f, g |-> "none", pf |-> pf, pg |-> {}] @@ st))
 
 -----------------------------------------------------------------------------
 Init ==
@@ -226,6 +231,8 @@ Configure(c, f) ==
     /\ fb' = f
     /\ last' = NoReply
 
+ConfigureFrom(c) == Configure(c, Fallback)
+
 Lookup(v) ==
     /\ cfg # NoConfig
     /\ \E r \in ResolveSet(cfg, v, fb) : last' = [op |-> "lookup", v |-> v, res |-> r]
@@ -238,7 +245,7 @@ RoundTrip ==
     /\ UNCHANGED <<cfg, fb>>
 
 Next ==
-    \/ cfg = NoConfig /\ \E c \in Lattice(Pairs, Wide) : Configure(c, Fallback)
+    \/ cfg = NoConfig /\ ForLattice(Pairs, Wide, ConfigureFrom)
     \/ \E v \in Validators : Lookup(v)
     \/ RoundTrip
 
